@@ -382,7 +382,7 @@ func init() {
 			"(splitbyte) Split(b) for every byte value b = 0x00..0xFF: streams of terminated and unterminated records made of all other byte values, the UTF-8 encoding of U+00<b> (alone, ending a record, ending the unterminated tail, repeated), each byte of that encoding, b-1 b+1 b^0x80, UTF-8 lead/continuation bytes, empty records, 3 seeded mixtures, " +
 			"at every truncation point x 4 chunkings, and records of 4094..4097 and 9001 bytes made of and ending in those bytes, truncated around every boundary; " +
 			"(json) every string of <= 5 / 7 tokens over { } [ ] \" a 1 , : space and of <= 4 / 5 value-level tokens x 3 chunkings; " +
-			"(longline) header lines and split records of 4084..4108, 8180..8204, 12276..12300, 20000, 70000 bytes (for non-ASCII split bytes made of and ending in the bytes that spell U+00<split>; unknown field with a long value, also ending in text that looks like a Content-Length field); (absurd) Content-Length 2^31, 2^40, 2^46, 2^47, 2^62, 2^63-1, 2^63, 10^30, -1, +5, ... with a 3-byte body; " +
+			"(longline) header lines and split records of 4084..4108, 8180..8204, 12276..12300, 20000, 70000 bytes (for non-ASCII split bytes made of and ending in the bytes that spell U+00<split>; unknown field with a long value, also ending in text that looks like a Content-Length field); (bigbody) bodies of 4MiB-1, 4MiB, 4MiB+1, 5MiB+17 (thorough also 8 and 9 MiB) complete / cut by one byte / cut in half, each followed by a small record, x Content-Type field {absent, wrong, empty, right, right then wrong, wrong then right} before and after Content-Length, and the same sizes as split records; (absurd) Content-Length 2^31, 2^40, 2^46, 2^47, 2^62, 2^63-1, 2^63, 10^30, -1, +5, ... with a 3-byte body; " +
 			"(trunc) every truncation point of 50 valid multi-record streams per framing (sampled points for streams > 600 bytes); (mut) seeded 1-3 byte mutations of valid streams. " +
 			"evaluations = stream decodes. distinct_nontrivial = distinct (framing, stream) on which the reference decoder yields at least one record before the first error, " +
 			"or a final record / payload / JSON value cut off by end of stream (streams whose first line is already garbage are counted only in the counter inputs); " +
